@@ -1,8 +1,11 @@
 package sched
 
 import (
+	"context"
 	"fmt"
 	"testing"
+
+	"github.com/ory/keto/internal/driver/config"
 
 	"github.com/ory/keto/internal/check/checkgroup"
 	"github.com/ory/keto/verif/ev"
@@ -29,6 +32,25 @@ func TestC02(t *testing.T) {
 		leaves = []int{LIncA, LIncB, LTrvAP, LTrvAB, LPermQ}
 	}
 	cfgs := cfgCatalogue(2, leaves, 0, false)
+	nBase := len(cfgs)
+	// nested family: op1(x, op2(y, z)) and op1(op2(x, y), z) - a nested rewrite operand is charged one
+	// more level of depth than its siblings, so it can be cut while they are not
+	{
+		nl := []int{LIncA, LIncB, LPermQ}
+		lf := func(l int) *Expr { return &Expr{Op: "leaf", Leaf: l} }
+		for _, op1 := range []string{"and", "or"} {
+			for _, op2 := range []string{"and", "or"} {
+				for _, x := range nl {
+					for _, y := range nl {
+						for _, z := range nl {
+							in := &Expr{Op: op2, Kids: []*Expr{lf(y), lf(z)}}
+							cfgs = append(cfgs, mkCfgRefless(&Expr{Op: op1, Kids: []*Expr{lf(x), in}}), mkCfgRefless(&Expr{Op: op1, Kids: []*Expr{in, lf(x)}}))
+						}
+					}
+				}
+			}
+		}
+	}
 	worlds := map[[2]int]*World{}
 	world := func(g, wd int) *World {
 		k := [2]int{g, wd}
@@ -38,7 +60,7 @@ func TestC02(t *testing.T) {
 		return worlds[k]
 	}
 	var cov struct {
-		evals, tooLarge, cutCases, failClosedChecked, equivChecked, widthEvals, widthCut int
+		evals, reconf, tooLarge, cutCases, failClosedChecked, equivChecked, widthEvals, widthCut int
 		complete                                                             bool
 	}
 	cov.complete = true
@@ -48,6 +70,7 @@ func TestC02(t *testing.T) {
 	univ := universe([]string{"o1", "o2"}, []string{"a", "b"}, []string{"a", "b", "p", ""}, []string{"u"})
 	var sets [][]refsem.Tuple
 	enumTupleSets(univ, 2, func(ord int, ts []refsem.Tuple) { sets = append(sets, ts) })
+	nSmall := len(sets)
 	gs := graphs()
 	for _, g := range graphOrder {
 		sets = append(sets, gs[g])
@@ -76,6 +99,9 @@ func TestC02(t *testing.T) {
 		}
 		w0 := world(1, 100)
 		for si, ts := range sets {
+			if ci >= nBase && len(ts) > 1 && si < nSmall {
+				continue // nested family: all sets of <=1 tuple plus the named graphs and chains
+			}
 			n++
 			if n%nshards != shard {
 				continue
@@ -113,7 +139,14 @@ func TestC02(t *testing.T) {
 						}
 						// (a) fail closed
 						cov.failClosedChecked++
-						if c.m == checkgroup.IsMember && !ref.Allowed && len(cands) < 200 {
+						if c.m == checkgroup.IsMember && !ref.Allowed && ci >= nBase {
+							sig := "fail-open"
+							if cfg.Expr.hasNot() && o.Cut {
+								sig = "fail-open:cut-below-not"
+							}
+							run.Violation(sig, fmt.Sprintf("allowed with global depth %d, request depth %d (cut=%v) but the unbounded semantics deny: {%s | %s | q=%s}", g, r, o.Cut, cfg.Name, tuplesStr(ts), q),
+								map[string]any{"opl": refsem.RenderOPL(cfg.NS), "tuples_in_row_order": tuplesStr(ts), "query": q.String(), "global": g, "request": r})
+						} else if c.m == checkgroup.IsMember && !ref.Allowed && len(cands) < 200 {
 							sig := "fail-open"
 							if cfg.Expr.hasNot() && o.Cut {
 								sig = "fail-open:cut-below-not"
@@ -148,6 +181,51 @@ func TestC02(t *testing.T) {
 	}
 	if shard == 0 {
 		run.Sample(map[string]any{"family": "depth", "config": cfgs[len(cfgs)/3].Name, "tuples": tuplesStr(sets[len(sets)-3]), "query": queries[0].String(), "grid": "global depth 1..6 x request depth -1..g+2"})
+	}
+
+	// reconfiguration: the limits are read from the live configuration, so lowering or raising
+	// limit.max_read_depth at run time on ONE long-lived engine must behave like a server started
+	// with the new value (start from non-initial states: serve a check, change the limit, check again)
+	if shard == 0 {
+		rw := NewWorld(t, WorldOpt{Namespaces: cfgs[0].NS, Depth: 3})
+		chain := sets[len(sets)-3]
+		for _, e := range []*Expr{{Op: "leaf", Leaf: LIncA}, {Op: "not", Kids: []*Expr{{Op: "leaf", Leaf: LIncA}}}, {Op: "or", Kids: []*Expr{{Op: "leaf", Leaf: LIncB}, {Op: "leaf", Leaf: LTrvAP}}}} {
+			cfg := mkCfgRefless(e)
+			rw.SetNamespaces(t, cfg.NS)
+			for g := 1; g <= 4; g++ {
+				world(g, 100).SetNamespaces(t, cfg.NS)
+			}
+			for _, ts := range [][]refsem.Tuple{chain, gs["chain"], gs["parents"]} {
+				for _, q := range queries {
+					for g1 := 1; g1 <= 4; g1++ {
+						for g2 := 1; g2 <= 4; g2++ {
+							if g1 == g2 {
+								continue
+							}
+							setDepth := func(g int) {
+								if err := rw.Reg.Config(context.Background()).Set(config.KeyLimitMaxReadDepth, g); err != nil {
+									t.Fatalf("INFRA: set depth: %v", err)
+								}
+							}
+							setDepth(g1)
+							rw.RunCheck(rw.Rows(ts), rw.Internal(q), vsched.Config{FastBase: true}, RunOpt{}) // served under the old limit
+							setDepth(g2)
+							fresh := world(g2, 100)
+							for r := -1; r <= g2+2; r++ {
+								a := rw.RunCheck(rw.Rows(ts), rw.Internal(q), vsched.Config{FastBase: true}, RunOpt{ReqDepth: r})
+								b := fresh.RunCheck(fresh.Rows(ts), fresh.Internal(q), vsched.Config{FastBase: true}, RunOpt{ReqDepth: r})
+								cov.reconf++
+								if a.X.Outcome == "ok" && b.X.Outcome == "ok" && (a.Res.Membership != b.Res.Membership || (a.Res.Err != nil) != (b.Res.Err != nil)) {
+									run.Violation("reconfigured-limit-not-effective", fmt.Sprintf("after limit.max_read_depth was changed from %d to %d at run time, request depth %d answers %s; a server started with depth %d answers %s: {%s | %s | q=%s}",
+										g1, g2, r, memb(a.Res), g2, memb(b.Res), cfg.Name, tuplesStr(ts), q),
+										map[string]any{"opl": refsem.RenderOPL(cfg.NS), "tuples_in_row_order": tuplesStr(ts), "query": q.String(), "old_global": g1, "new_global": g2, "request": r})
+								}
+							}
+						}
+					}
+				}
+			}
+		}
 	}
 
 	// width: fan-out f around the width limit w; the member sits behind the first / the last child
@@ -213,6 +291,7 @@ func TestC02(t *testing.T) {
 		"fail_closed_checked":  cov.failClosedChecked + cov.widthEvals,
 		"request_vs_global_equivalences_checked": cov.equivChecked,
 		"width_evaluations":    cov.widthEvals,
+		"reconfiguration_evaluations": cov.reconf,
 		"skipped_beyond_step_horizon": cov.tooLarge,
 		"max_global_depth":     maxG,
 		"max_configs":          len(cfgs),
